@@ -303,6 +303,34 @@ func init() {
 			return leak(), outcome(e)
 		}}
 	})
+	// stop-busy: the worker is held, the channel is full, a sender is parked in Send when Stop arrives.
+	conc.Register("pool-stop-busy", func(p string) *conc.Scenario {
+		return &conc.Scenario{Options: opts, Body: func() (string, string) {
+			vrt.SetBranching(false)
+			e := newEnv(1, 4)
+			ctx := context.Background()
+			e.p.Run(ctx)
+			gate := make(chan struct{})
+			e.p.Send(ctx, e.job(0, gate))
+			vrt.Quiesce()
+			e.p.Send(ctx, e.job(1, nil))
+			e.p.Send(ctx, e.job(2, nil))
+			vrt.SetBranching(true)
+			var wg sync.WaitGroup
+			wg.Add(2)
+			vrt.GoNamed("sender", func() { e.p.Send(ctx, e.job(3, nil)); wg.Done() })
+			vrt.GoNamed("gate-opener", func() { vrt.Close(gate); wg.Done() })
+			e.p.Stop()
+			e.stopped.Set(1)
+			wg.Wait()
+			vrt.Quiesce()
+			if v := e.checkAtMostOnce(); v != "" {
+				return v, outcome(e)
+			}
+			return leak(), outcome(e)
+		}}
+	})
+
 	// restart-race: a second life of the pool begins (Run) while a Send and a Stop are in flight.
 	conc.Register("pool-restart-race", func(p string) *conc.Scenario {
 		m := params(p)
